@@ -1044,3 +1044,59 @@ Proof.
   intros. unfold padding_ok. rewrite forallb_forall, Forall_forall.
   split; intros H r Hr; apply run_padded_iff; apply H; exact Hr.
 Qed.
+
+(* ---------- endpoints and reachability ---------- *)
+Definition endpoints (l : line) : (ekind * string) * (ekind * string) := ((l_sk l, l_src l), (l_dk l, l_dst l)).
+Lemma add_missing_endpoints : forall c l l', add_missing c l = Ok l' -> endpoints l' = endpoints l.
+Proof.
+  intros c l l' H. unfold add_missing in H.
+  destruct (split_chain c (l_els l)) as [s|]; [|discriminate]. cbn [bind] in H.
+  assert (E0 : endpoints (with_els l s) = endpoints l) by reflexivity.
+  assert (B : forall a b, add_booster a = Ok b -> endpoints b = endpoints a).
+  { intros a b Hb. destruct (booster_shape _ _ Hb) as (mu & ->). reflexivity. }
+  assert (P : forall a b, add_preamp a = Ok b -> endpoints b = endpoints a).
+  { intros a b Hb. destruct (preamp_shape _ _ Hb) as (mu & ->). reflexivity. }
+  destruct (l_dst_first l).
+  - destruct (add_preamp (with_els l s)) as [l1|] eqn:E1; [|discriminate]. cbn [bind] in H.
+    destruct (add_booster l1) as [l2|] eqn:E2; [|discriminate]. cbn [bind] in H.
+    destruct (add_inline (l_els l2)) as [i|]; [|discriminate]. cbn [bind] in H. inversion H.
+    change (endpoints (with_els l2 i)) with (endpoints l2). rewrite (B _ _ E2), (P _ _ E1). exact E0.
+  - destruct (add_booster (with_els l s)) as [l1|] eqn:E1; [|discriminate]. cbn [bind] in H.
+    destruct (add_preamp l1) as [l2|] eqn:E2; [|discriminate]. cbn [bind] in H.
+    destruct (add_inline (l_els l2)) as [i|]; [|discriminate]. cbn [bind] in H. inversion H.
+    change (endpoints (with_els l2 i)) with (endpoints l2). rewrite (P _ _ E2), (B _ _ E1). exact E0.
+Qed.
+(* design keeps the endpoint pair of a line: for every line and configuration, no hypothesis *)
+Lemma design_line_endpoints : forall c l l', design_line c l = Ok l' -> endpoints l' = endpoints l.
+Proof.
+  intros c l l' H. unfold design_line in H.
+  destruct (add_missing c l) as [l1|] eqn:E1; [|discriminate]. cbn [bind] in H.
+  destruct (pad_chain c (conn c (l_els l1))) as [p|]; [|discriminate]. cbn [bind] in H. inversion H.
+  change (endpoints (with_els l1 p)) with (endpoints l1). exact (add_missing_endpoints c l l1 E1).
+Qed.
+
+(* a network = its lines; a node reaches another through a sequence of lines *)
+Definition design_net (c : cfg) (ls : list line) : res (list line) := mapM (design_line c) ls.
+Definition edges (ls : list line) : list (string * string) := map (fun l => (l_src l, l_dst l)) ls.
+Inductive reach (es : list (string * string)) : string -> string -> Prop :=
+| reach_refl : forall a, reach es a a
+| reach_step : forall a b d, In (a, b) es -> reach es b d -> reach es a d.
+Lemma design_net_endpoints : forall c ls ls', design_net c ls = Ok ls' -> map endpoints ls' = map endpoints ls.
+Proof.
+  intros c ls ls' H. pose proof (mapM_ok _ _ _ H) as F. clear H.
+  induction F as [|x y X Y Hxy _ IH]; [reflexivity|]. cbn [map]. rewrite IH, (design_line_endpoints c x y Hxy). reflexivity.
+Qed.
+Lemma edges_endpoints : forall ls, edges ls = map (fun e => (snd (fst e), snd (snd e))) (map endpoints ls).
+Proof. intro ls. unfold edges. rewrite map_map. apply map_ext. intro l. reflexivity. Qed.
+Lemma design_net_edges : forall c ls ls', design_net c ls = Ok ls' -> edges ls' = edges ls.
+Proof. intros c ls ls' H. rewrite !edges_endpoints, (design_net_endpoints c ls ls' H). reflexivity. Qed.
+(* auto-design leaves reachability between ROADMs / transceivers unchanged *)
+Lemma design_net_reach : forall c ls ls' a b, design_net c ls = Ok ls' -> (reach (edges ls') a b <-> reach (edges ls) a b).
+Proof. intros c ls ls' a b H. rewrite (design_net_edges c ls ls' H). reflexivity. Qed.
+Example ex_reach : exists ls', design_net w_cfg [ex_line; mkLine Roadm "B" 1 Roadm "C" true [Fib (w_fib "g" 60 [])]] = Ok ls' /\
+  reach (edges ls') "A" "C" /\ ~ reach (edges ls') "C" "A".
+Proof.
+  eexists. split; [vm_compute; reflexivity|]. split.
+  - eapply reach_step; [left; reflexivity|]. eapply reach_step; [right; left; reflexivity|]. apply reach_refl.
+  - intro H. inversion H as [|a b d Hin _]; subst. cbn in Hin. destruct Hin as [E|[E|[]]]; inversion E.
+Qed.
